@@ -27,6 +27,7 @@ def run(ctx, res):
     r1.rule_peer_shaped_sinks(S, res)
     r1.rule_peer_scalar(S, res)
     r1.rule_peer_controlled_sinks(S, res)
+    r1.rule_peer_controlled_panics(S, res)
     rule_decrypt_result(S, res)
     r1.rule_err_not_dropped(S, res)
     r1.rule_wait_only_on_channel(S, res)
